@@ -539,6 +539,23 @@ class Gen:
             ret = self.pick([("unit",), ("unit",), ("result", ("unit",), self.simple_ret_payload(allow_unit=True), "std"), ("opt", ("unit",), "std")])
         if p["write"] and self.chance(p["write_prob"] if ret[0] != "opt" else max(0.5, p["write_prob"])) and ret[0] in ("unit", "result", "opt") and (ret[0] == "unit" or ret[1] == ("unit",)):
             params.append(("w", ("write",)))
+        if p.get("opt_named_lt") and self.chance(p["opt_named_lt"]):
+            # an optional slice / string parameter under a *named* lifetime that nothing else (or only another slice parameter) uses
+            # (seed C15-h: the borrow visitor's idea of "used lifetimes" and of what may carry one disagreed for exactly this shape)
+            cand = [k for k, (pn, pt) in enumerate(params) if pt[0] == "opt" and pt[2] == "std" and pt[1][0] in ("slice", "str") and pt[1][-2 if pt[1][0] == "slice" else 2] is None]
+            if cand:
+                k = self.pick(cand)
+                pn, pt = params[k]
+                inner = pt[1]
+                inner = (inner[0], inner[1], inner[2], "o", inner[4]) if inner[0] == "slice" else (inner[0], inner[1], "o", inner[3])
+                params[k] = (pn, ("opt", inner, pt[2]))
+                if self.chance(0.35):
+                    plain = [j for j, (qn, qt) in enumerate(params) if qt[0] == "slice" and qt[3] is None and not qt[2]]
+                    if plain:
+                        j = self.pick(plain)
+                        qn, qt = params[j]
+                        params[j] = (qn, (qt[0], qt[1], qt[2], "o", qt[4]))
+                lifetimes = list(lifetimes) + ["o"]
         own_opt = False
         if owner.kind in ("struct", "enum") and not owner.lifetimes and p["option"] and p["self_spelling"] and len(params) < p["max_params"] + 1 and self.chance(0.15):
             # an optional value of the owner's own type (`o: Option<Self>`)
